@@ -365,14 +365,19 @@ func (core *JApiCore) processJsonRpcAllOf() *jerr.JApiError {
 }
 
 func (core *JApiCore) processSchemaContentJSightAllOf(sc *catalog.SchemaContentJSight, uut *catalog.StringSet) error {
-	if sc.TokenType != jschema.TokenTypeObject {
+	if sc.TokenType != jschema.TokenTypeObject && sc.TokenType != jschema.TokenTypeArray {
 		return nil
 	}
 
+	// The items of an array may be objects with an allOf of their own.
 	for _, v := range sc.Children {
 		if err := core.processSchemaContentJSightAllOf(v, uut); err != nil {
 			return err
 		}
+	}
+
+	if sc.TokenType != jschema.TokenTypeObject {
+		return nil
 	}
 
 	rule, ok := sc.Rules.Get("allOf")
